@@ -29,7 +29,8 @@ RULE = ('abstract baskets (1-6 sequences; lengths 0-200 biased to 0, 1, 59-61; n
         'residues); ids made of the IDPATTERN database tags followed by ":"; content auto-detection (also with blank lines before the '
         'first header); HISTORY stream: several write/read calls, in-place edits (data, id, reverse, str.replace, header, pop, the same '
         'BioSeq twice, order), fresh objects, colliding baskets/texts and mutation of returned objects inside one process, every '
-        'observing step compared with the pure model on the current value')
+        'observing step compared with the pure model on the current value; GFF reader-option stream: filt_fast (strings that do / do not '
+        'occur in the ##FASTA line, headers, feature lines), filt, default_ftype, comments=[] on written baskets and on foreign texts')
 TRUSTED = ['CPython text layer (open/TextIOWrapper universal newlines, StringIO), str.strip/lstrip/rstrip/split/upper/removeprefix, '
            're.match on IDPATTERN (modelled by a hand-written matcher, pinned to the pattern text and compared on adversarial '
            'headers), json.dump/json.load text layer (SJSON is modelled at tree level), dict insertion order, the OS appending '
@@ -498,6 +499,60 @@ def history_cases(rng, tier):
     return cases
 
 
+def g_opts(rng, seqs, fts, text=''):
+    """filt_fast values that do / do not occur in the ##FASTA line, in headers, in feature lines; filt; default_ftype"""
+    o = {}
+    if rng.random() < 0.75:
+        pool = ['FASTA', 'fasta', '##FASTA', '#', 'gene', 'CDS', 'cds', 'nosuchstring', '\t', '>', 'gff', 'version', '.', 'A', 'ACGT']
+        pool += [i for i, _, _ in seqs if i] + [f[1] for f in fts] + [f[0] for f in fts]
+        if text:
+            ws = re.findall(r'[A-Za-z_]{2,8}', text)
+            pool += [rng.choice(ws)] if ws else []
+        ff = rng.choice(pool)
+        if rng.random() < 0.3:
+            ff = ff.swapcase()
+        o['filt_fast'] = ff
+    if rng.random() < 0.4:
+        o['filt'] = rng.choice([['gene'], ['CDS', 'exon'], ['nosuchtype'], [], ['gene', 'CDS', 'exon', 'region_1', 'FASTA', '##FASTA', 'five_prime_UTR']])
+    if rng.random() < 0.3:
+        o['default_ftype'] = rng.choice(['gene', 'misc', 'FASTA'])
+    if rng.random() < 0.3:
+        o['comments'] = True
+    return o
+
+
+def gffopt_cases(rng, tier):
+    cases = []
+    base = [['chr1', 'ACGTACGTAC', None], ['gene_2', 'MKV*', 'gene_2 a CDS product'], ['FASTA', 'acgtn', None]]
+    bfts = [['chr1', 'gene', 1, 4, '+'], ['chr1', 'CDS', 2, 3, '-'], ['gene_2', 'exon', 0, 2, '.']]
+    for ff in ['gene', 'CDS', 'chr1', 'FASTA', 'fasta', '##FASTA', 'nosuchstring', 'ACGT', '>', 'a CDS product', None]:
+        for filt in [None, ['gene'], ['nosuchtype']]:
+            o = {k: v for k, v in (('filt_fast', ff), ('filt', filt)) if v is not None}
+            cases.append({'op': 'gffopt', 'fmt': 'gff', 'opts': o, 'seqs': base, 'fts': bfts, 'via': 'str'})
+            cases.append({'op': 'gffopt', 'fmt': 'gff', 'opts': dict(o, comments=True), 'seqs': base, 'via': 'sio'})
+    n = 2500 if tier == 'thorough' else 160
+    for _ in range(n):
+        if rng.random() < 0.6:
+            seqs = g_seqs(rng, fmt='gff')
+            fts = g_fts(rng, seqs) if rng.random() < 0.7 else []
+            cases.append({'op': 'gffopt', 'fmt': 'gff', 'opts': g_opts(rng, seqs, fts), 'seqs': seqs, 'fts': fts,
+                          'via': rng.choice(['str', 'sio', 'path'])})
+        else:
+            text = g_gff_text(rng)
+            if rng.random() < 0.6:          # well-formed feature lines in front of the sequence section
+                head, sep, tail = text.partition('\n')
+                fl = ['%s\t.\t%s\t%d\t%d\t%s\t%s\t%s\t%s' % (rng.choice(['x', 'chr1', 'FASTA']), rng.choice(['gene', 'CDS', '.', 'mRNA']),
+                                                            a, a + rng.choice([0, 3, 100]), rng.choice(['.', '1', '5']), rng.choice('+-.?'),
+                                                            rng.choice(['.', '0', '2']), rng.choice(['.', 'ID=g1', 'ID=g1;Name=n;Note=a=b']))
+                      for a in [rng.choice([1, 2, 50])] * rng.choice([1, 2])]
+                if rng.random() < 0.15:
+                    fl.append('x\t.\tbadline\tone\ttwo\t.\t+\t.\t.')      # raises unless filtered away
+                text = head + sep + '\n'.join(fl) + '\n' + tail
+            cases.append({'op': 'gffopt', 'fmt': 'gff', 'opts': g_opts(rng, [], [], text), 'text': text,
+                          'via': rng.choice(['str', 'path'] if '\r' in text else ['str', 'sio', 'path'])})
+    return cases
+
+
 def detectable(fmt, text):
     """texts for which read() without fmt is expected to find the format: the sniffers look at the first 50 / 11 / 100
     characters (fasta.py:13, stockholm.py:16, gff.py:20)"""
@@ -528,6 +583,7 @@ def gen_cases(rng, tier):
         for via in ['auto', 'auto-sio', 'str']:
             cases.append({'op': 'read', 'fmt': 'fasta', 'text': pre + '>seq1 d\nACGT\nAC\n>seq2\nMKV*\n', 'via': via})
     cases += history_cases(rng, tier)
+    cases += gffopt_cases(rng, tier)
     for _ in range(n_cycle):
         fmt = rng.choice(FMTS)
         c = {'op': 'cycle', 'fmt': fmt, 'seqs': g_seqs(rng, fmt=fmt), 'via': rng.choice(vias)}
@@ -684,12 +740,47 @@ def do_read(text, fmt, via, d):
         raise ValueError(str(e))
 
 
+def impl_gffopt(case, d):
+    """GFF3 + ##FASTA read with the documented reader options filt_fast / filt / default_ftype / comments"""
+    from sugar import read, BioBasket
+    o = case['opts']
+    kw = {k: o[k] for k in ('filt_fast', 'filt', 'default_ftype') if o.get(k) is not None}
+    if o.get('comments'):
+        kw['comments'] = []
+    via = case.get('via', 'str')
+
+    def rd(text):
+        if via == 'path':
+            p = d.path('o.gff')
+            with open(p, 'w', newline='') as f:
+                f.write(text)
+            return read(p, 'gff', **kw)
+        if via == 'sio':
+            return read(io.StringIO(text), 'gff', **kw)
+        return BioBasket.fromfmtstr(text, fmt='gff', **kw)
+    if 'text' in case:
+        return objs(rd(case['text']))
+    b0 = mk_basket(case['seqs'])
+    if case.get('fts'):
+        from sugar.core.fts import Feature, Location, FeatureList
+        fl = []
+        for i, ty, a, e, st in case['fts']:
+            ft = Feature(ty, [Location(a, e, strand=st)])
+            ft.seqid = i
+            fl.append(ft)
+        b0.fts = FeatureList(fl)
+    t1 = b0.tofmtstr('gff')
+    return [t1, objs(rd(t1))]
+
+
 def impl(case):
     op, fmt = case['op'], case['fmt']
     via = case.get('via', 'str')
     with _Tmp() as d:
         if op == 'history':
             return impl_history(case, d)
+        if op == 'gffopt':
+            return impl_gffopt(case, d)
         if op == 'cycle':
             b0 = mk_basket(case['seqs'])
             if case.get('fts'):
@@ -744,7 +835,17 @@ def _term(op, fmt, seqs=(), seqs2=(), fts=(), text=''):
     return 'run_C01 %s %s %s %s %s %s' % (coq_N(op), coq_N(FMTS.index(fmt)), coq_seqs(seqs), coq_seqs(seqs2), ftl, coq_bs(text))
 
 
+def _opt_term(case):
+    o = case['opts']
+    ftl = coq_list([coq_pair(coq_bs(i), coq_bs(t), coq_nat(a), coq_nat(e), '"%s"%%byte' % st) for i, t, a, e, st in case.get('fts', [])])
+    return 'run_C01_opt %s %s %s %s %s %s %s' % (
+        coq_N(1 if 'text' in case else 0), coq_opt(o.get('filt_fast'), coq_bs), coq_list([coq_bs(x) for x in (o.get('filt') or [])]),
+        coq_opt(o.get('default_ftype'), coq_bs), coq_seqs(case.get('seqs', [])), ftl, coq_bs(case.get('text', '')))
+
+
 def model_term(case):
+    if case['op'] == 'gffopt':
+        return 'out (%s)' % _opt_term(case)
     if case['op'] == 'history':
         terms = []
         for st, cur in zip(case['steps'], h_states(case)):
@@ -788,7 +889,13 @@ def valid_case(case):
             elif st != ['fresh']:
                 return False
         return ok
-    if case.get('op') not in OPS or case.get('fmt') not in FMTS:
+    if case.get('op') == 'gffopt':
+        o = case.get('opts')
+        if not isinstance(o, dict) or ('text' not in case and 'seqs' not in case):
+            return False
+        if o.get('filt') is not None and not (isinstance(o['filt'], list) and all(isinstance(x, str) for x in o['filt'])):
+            return False
+    elif case.get('op') not in OPS or case.get('fmt') not in FMTS:
         return False
     for ft in case.get('fts', []):
         if len(ft) != 5 or len(ft[4]) != 1 or ft[2] >= ft[3] or ft[4] not in '+-.?':
@@ -877,6 +984,18 @@ def spec_history(case, got):
 def spec(case, got):
     if case['op'] == 'history':
         return spec_history(case, got)
+    if case['op'] == 'gffopt':
+        if isinstance(got, dict):
+            return 'raised %s inside the claimed domain (options %r)' % (got.get('e'), case['opts'])
+        if 'text' in case:
+            exp = _expected_from_text('gff', case['text'])
+            if exp is not None and [x[1] for x in got] != [e['data'] for e in exp]:
+                return 'options %r: read residues %r, the sequence section has %r' % (case['opts'], [x[1] for x in got], [e['data'] for e in exp])
+            return None
+        want = [[i, d.upper()] for i, d, h in case['seqs']]
+        if [x[:2] for x in got[1]] != want:
+            return 'options %r: read %r, the basket holds %r' % (case['opts'], [x[:2] for x in got[1]], want)
+        return None
     if isinstance(got, dict):
         return 'raised %s inside the claimed domain' % got.get('e')
     op, fmt = case['op'], case['fmt']
@@ -927,6 +1046,13 @@ def spec(case, got):
 def _marks(case, got):
     op, fmt = case['op'], case['fmt']
     ms = []
+    if op == 'gffopt':
+        o = case['opts']
+        ms = ['opt-' + k for k in ('filt_fast', 'filt', 'default_ftype', 'comments') if o.get(k)]
+        ms.append('opt-text' if 'text' in case else 'opt-basket')
+        if case.get('fts'):
+            ms.append('features')
+        return sorted(ms)
     if op == 'history':
         for st in case['steps']:
             ms.append('h-' + (st[0] if st[0] != 'edit' else 'edit-' + st[1]))
@@ -1002,7 +1128,9 @@ def nontrivial(case, got):
 
 def histkey(case, got):
     ks = ['op=' + case['op'], 'fmt=' + case['fmt'], 'raised' if isinstance(got, dict) else 'returned']
-    if case['op'] == 'history':
+    if case['op'] == 'gffopt':
+        pass
+    elif case['op'] == 'history':
         ks.append('steps=%d' % len(case['steps']))
     elif case['op'] == 'read':
         n = len(case['text'])
@@ -1143,7 +1271,8 @@ LEVEL_TEXT = ('Machine-checked Coq theorems about an executable model of the rea
               'and each of FASTA, Stockholm, GFF3+##FASTA (also with plain features in front of the sequence section), SJSON (tree '
               'level), write->read returns the same count, order, ids and residues, and the objects read back are written and read '
               'as themselves (objects equal, bytes identical from the second text on; C01_roundtrip_all, C01_format_cycle, '
-              'C01_gff_fts_roundtrip); the FASTA reader is insensitive to wrapping at any width, blank and ";" lines inside records '
+              'C01_gff_fts_roundtrip); the GFF reader options filt_fast / filt / default_ftype do not change which sequences are '
+              'read (C01_gff_options_irrelevant); the FASTA reader is insensitive to wrapping at any width, blank and ";" lines inside records '
               'and before the first header, and case (C01_fasta_rewrap, C01_wrap_payload, C01_payload_insert, '
               'C01_fasta_leading_skip); "id description" headers are re-written verbatim in any position; mode "a" equals writing '
               'the concatenated basket; the id extractor is idempotent; any FASTA, GFF3+##FASTA or Stockholm text of the reader '
